@@ -2,7 +2,9 @@ package main
 
 import (
 	"fmt"
+	"go/token"
 	"go/types"
+	"os"
 	"strings"
 
 	"golang.org/x/tools/go/ssa"
@@ -237,7 +239,7 @@ func derefUses(v ssa.Value) []ssa.Instruction {
 			case ssa.CallInstruction:
 				cc := y.Common()
 				if !cc.IsInvoke() && cc.Signature().Recv() != nil && len(cc.Args) > 0 && cc.Args[0] == x {
-					if f := cc.StaticCallee(); f != nil && !toleratesNilReceiver(f) {
+					if f := cc.StaticCallee(); f != nil && !toleratesNilReceiver(f) && !toleratesNilReceiverSem(gCtx.Idx(), f, 0) {
 						out = append(out, r)
 					}
 				}
@@ -391,6 +393,9 @@ func (ix *idxEngine) nonNilByRange(fn *ssa.Function, call *ssa.Call, callee *ssa
 						r2 = c2.Call.Value
 					} else if len(c2.Call.Args) > 0 {
 						r2 = c2.Call.Args[0]
+					}
+					if os.Getenv("TABDBG") == "getter" && r2 != nil {
+						fmt.Fprintf(os.Stderr, "getter? %s recv %s (%s) vs %s (%s)\n", c2, r2.Name(), p2.canon(r2), recvVal.Name(), p2.canon(recvVal))
 					}
 					if r2 == nil || p2.canon(r2) != p2.canon(recvVal) {
 						return
@@ -624,4 +629,256 @@ func (ix *idxEngine) nonDecreasingField(f *types.Var) bool {
 	}
 	ix.nondec[f] = ok
 	return ok
+}
+
+// ---- nil receivers, decided by what is reachable rather than by where the test is written ---------------------
+
+// helperExcludesNil: the branch (cond, val) can only be taken when v is non-nil, because cond compares the result
+// of a module function h(.., v, ..) with a constant and every return of h that can be reached with v == nil hands
+// back a constant for which the comparison comes out the other way
+// (if ec.count() == 0 { return nil } ; count returns 0 for a nil receiver).
+func helperExcludesNil(ix *idxEngine, cond ssa.Value, val bool, v ssa.Value) bool {
+	bo, ok := cond.(*ssa.BinOp)
+	if !ok {
+		return false
+	}
+	var call *ssa.Call
+	var k int64
+	swapped := false
+	if c1, isC := bo.X.(*ssa.Call); isC {
+		if kk, isK := constInt(bo.Y); isK {
+			call, k = c1, kk
+		}
+	}
+	if call == nil {
+		if c2, isC := bo.Y.(*ssa.Call); isC {
+			if kk, isK := constInt(bo.X); isK {
+				call, k, swapped = c2, kk, true
+			}
+		}
+	}
+	if call == nil {
+		return false
+	}
+	h := call.Call.StaticCallee()
+	if h == nil || !inModule(h) || h.Blocks == nil || h.Signature.Results().Len() != 1 {
+		return false
+	}
+	idx := -1
+	for i, a := range call.Call.Args {
+		if a == v {
+			idx = i
+		}
+	}
+	if idx < 0 || idx >= len(h.Params) {
+		return false
+	}
+	par := h.Params[idx]
+	cmp := func(r int64) bool { // truth of cond when the call yields r
+		a, b := r, k
+		if swapped {
+			a, b = k, r
+		}
+		switch bo.Op {
+		case token.EQL:
+			return a == b
+		case token.NEQ:
+			return a != b
+		case token.LSS:
+			return a < b
+		case token.LEQ:
+			return a <= b
+		case token.GTR:
+			return a > b
+		case token.GEQ:
+			return a >= b
+		}
+		return val // unknown operator: cannot exclude
+	}
+	for _, rc := range returnCases(h) {
+		// can this case be reached with par == nil?
+		nonNil := false
+		for _, blk := range []*ssa.BasicBlock{rc.Via, rc.Ret.Block()} {
+			for _, cf := range expandConds(dominatingConds(blk)) {
+				if e, nn, isT := nilTest(cf.Cond); isT && e == ssa.Value(par) && (nn == 0) == cf.Val {
+					nonNil = true
+				}
+			}
+		}
+		if rc.Via != rc.Ret.Block() {
+			// the edge Via -> merge block itself
+			if last, isIf := rc.Via.Instrs[len(rc.Via.Instrs)-1].(*ssa.If); isIf {
+				if e, nn, isT := nilTest(last.Cond); isT && e == ssa.Value(par) {
+					for si, s := range rc.Via.Succs {
+						if blockReach(s, nil)[rc.Ret.Block()] && si == nn {
+							nonNil = true
+						}
+					}
+				}
+			}
+		}
+		if nonNil {
+			continue
+		}
+		r, isK := constInt(rc.Vals[0])
+		if !isK || cmp(r) == val {
+			return false // a nil v can produce a result that takes this branch
+		}
+	}
+	_ = ix
+	return true
+}
+
+// knownNonNil: v is non-nil wherever `at` runs: a dominating nil test, or a dominating comparison of a helper's
+// result that a nil v cannot pass.
+func knownNonNil(ix *idxEngine, v ssa.Value, at ssa.Instruction) bool {
+	if nilChecked(v, at) {
+		return true
+	}
+	for _, cf := range expandConds(dominatingConds(at.Block())) {
+		if helperExcludesNil(ix, cf.Cond, cf.Val, v) {
+			return true
+		}
+	}
+	return false
+}
+
+// toleratesNilReceiverSem: nothing in f touches memory through the receiver, or hands it to a method that would,
+// unless the receiver is known non-nil there.
+func toleratesNilReceiverSem(ix *idxEngine, f *ssa.Function, depth int) bool {
+	f = skipWrappers(f)
+	if len(f.Blocks) == 0 || len(f.Params) == 0 || depth > 3 {
+		return false
+	}
+	recv := ssa.Value(f.Params[0])
+	ok := true
+	eachInstr(f, func(in ssa.Instruction) {
+		if !ok {
+			return
+		}
+		switch x := in.(type) {
+		case *ssa.FieldAddr:
+			if x.X == recv && !knownNonNil(ix, recv, in) {
+				ok = false
+			}
+		case *ssa.UnOp:
+			if x.Op == token.MUL && x.X == recv && !knownNonNil(ix, recv, in) {
+				ok = false
+			}
+		case *ssa.Store:
+			if x.Addr == recv && !knownNonNil(ix, recv, in) {
+				ok = false
+			}
+		case ssa.CallInstruction:
+			cc := x.Common()
+			for i, a := range cc.Args {
+				if a != recv {
+					continue
+				}
+				if knownNonNil(ix, recv, in) {
+					continue
+				}
+				g := cc.StaticCallee()
+				if g == nil || !inModule(g) || i != 0 || g.Signature.Recv() == nil {
+					ok = false // handed to something that is not known to cope with nil
+					continue
+				}
+				if !toleratesNilReceiverSem(ix, g, depth+1) {
+					ok = false
+				}
+			}
+			if cc.IsInvoke() && cc.Value == recv {
+				ok = false
+			}
+		}
+	})
+	return ok
+}
+
+// helperSaysLenPositive: the branch (cond, val) is taken only when len(<field fld of v>) >= 1, because cond compares
+// with a constant the result of a module function h(.., v, ..) whose every return either hands back a constant that
+// fails the comparison or hands back len(v.fld), and a length of 0 fails the comparison too.
+func helperSaysLenPositive(cond ssa.Value, val bool, v ssa.Value, fld *types.Var) bool {
+	bo, ok := cond.(*ssa.BinOp)
+	if !ok {
+		return false
+	}
+	var call *ssa.Call
+	var k int64
+	swapped := false
+	if c1, isC := bo.X.(*ssa.Call); isC {
+		if kk, isK := constInt(bo.Y); isK {
+			call, k = c1, kk
+		}
+	}
+	if call == nil {
+		if c2, isC := bo.Y.(*ssa.Call); isC {
+			if kk, isK := constInt(bo.X); isK {
+				call, k, swapped = c2, kk, true
+			}
+		}
+	}
+	if call == nil {
+		return false
+	}
+	h := call.Call.StaticCallee()
+	if h == nil || !inModule(h) || h.Blocks == nil || h.Signature.Results().Len() != 1 {
+		return false
+	}
+	idx := -1
+	for i, a := range call.Call.Args {
+		if a == v {
+			idx = i
+		}
+	}
+	if idx < 0 || idx >= len(h.Params) {
+		return false
+	}
+	par := h.Params[idx]
+	cmp := func(r int64) bool {
+		a, b := r, k
+		if swapped {
+			a, b = k, r
+		}
+		switch bo.Op {
+		case token.EQL:
+			return a == b
+		case token.NEQ:
+			return a != b
+		case token.LSS:
+			return a < b
+		case token.LEQ:
+			return a <= b
+		case token.GTR:
+			return a > b
+		case token.GEQ:
+			return a >= b
+		}
+		return val
+	}
+	if cmp(0) == val {
+		return false // an empty list takes this branch as well
+	}
+	sawLen := false
+	for _, rc := range returnCases(h) {
+		if r, isK := constInt(rc.Vals[0]); isK {
+			if cmp(r) == val && r < 1 {
+				return false
+			}
+			if cmp(r) == val {
+				return false // a constant result takes the branch: says nothing about the list
+			}
+			continue
+		}
+		lc, isLen := isBuiltinCall(rc.Vals[0], "len")
+		if !isLen {
+			return false
+		}
+		f, b := loadedField(lc.Call.Args[0])
+		if f != fld || b != ssa.Value(par) {
+			return false
+		}
+		sawLen = true
+	}
+	return sawLen
 }
